@@ -143,6 +143,13 @@ Theorem C12_rlp_roundtrip :
 Proof. exact decode_encode_tx. Qed.
 Print Assumptions C12_rlp_roundtrip.
 
+(* 6a. ... and conversely whatever byte string decodes as a transaction is that transaction's one
+       canonical encoding (so a transaction has one hash, whichever way it arrived). *)
+Theorem C12_decode_tx_canonical :
+  forall (b : bytes) (t : tx), decode_tx b = Some t -> b = encode_tx t.
+Proof. exact decode_tx_canonical. Qed.
+Print Assumptions C12_decode_tx_canonical.
+
 (* 6b. JSON: every quantity field (nonce, gas as hexutil.Uint64: 16 digits; price,
        value, V, R, S as hexutil.Big: 64 digits) decodes to the value it was
        encoded from.  encoding/json's object syntax is library code (tied by the
